@@ -71,6 +71,14 @@ def fft_choice(n1, n2, tab):
     if tr(d, w) <= 3 * (1 << d): d -= 1; w *= 3
     return (2, d, w)
 
+def matcher(line, impl, model):
+    """Toom evaluation points: when the implementation could not observe them (count 0: recursion through a call inside the
+    routine's own file, which link-time wrapping cannot intercept) only the product is compared."""
+    if line.startswith(('mpn_toom3_points', 'mpn_toom4_points')):
+        a = impl.split(); b = model.split()
+        return len(a) == 2 and a[0] == '0' and len(b) > 2 and a[-1] == b[-1]
+    return False
+
 def nontrivial(line, tag):
     toks = line.split()
     return len([t for t in toks[1:] if len(t) > 1]) >= 2
